@@ -639,7 +639,7 @@ def domain_guard(chk, prog, refs=None):
     return n
 
 
-ALL = {"PROCESS-STATE": lambda chk, prog, files: process_state(chk, prog, files), "SUBCLASS-ARITH": lambda chk, prog, files: subclass_arith(chk, prog, files), "NAN-LITERAL": lambda chk, prog, files: nan_literal(chk, prog, files), "LATCH": lambda chk, prog, files: latch(chk, prog, files), "SIGNATURE": lambda chk, prog, files: signature(chk, prog, files), "SIGN-CANON": lambda chk, prog, files: sign_canon(chk, prog, files), "UNDEFINED-NAME": lambda chk, prog, files: possibly_undefined(chk, prog, files), "SELF-PURE": lambda chk, prog, files: self_pure(chk, prog, files), "STALE-DERIVED": lambda chk, prog, files: stale_derived(chk, prog, files), "CACHE-KEY": lambda chk, prog, files: cache_key(chk, prog, files), "NO-PARAM-WRITE": lambda chk, prog, files: no_param_write(chk, prog, files), "ZERO-AS-MISSING": lambda chk, prog, files: zero_as_missing(chk, prog, files), "POSE-DIV": lambda chk, prog, files: pose_div(chk, prog, files), "UNIT-GUARD": lambda chk, prog, files: unit_guard(chk, prog, files), "PARAM-DEAD": param_dead, "SWAPPED-ARGS": swapped_args, "METHOD-TRUTH": method_truth, "VIEW-SWAP": view_swap,
+ALL = {"MASK-BLEND": lambda chk, prog, files: mask_blend(chk, prog, files), "PROCESS-STATE": lambda chk, prog, files: process_state(chk, prog, files), "SUBCLASS-ARITH": lambda chk, prog, files: subclass_arith(chk, prog, files), "NAN-LITERAL": lambda chk, prog, files: nan_literal(chk, prog, files), "LATCH": lambda chk, prog, files: latch(chk, prog, files), "SIGNATURE": lambda chk, prog, files: signature(chk, prog, files), "SIGN-CANON": lambda chk, prog, files: sign_canon(chk, prog, files), "UNDEFINED-NAME": lambda chk, prog, files: possibly_undefined(chk, prog, files), "SELF-PURE": lambda chk, prog, files: self_pure(chk, prog, files), "STALE-DERIVED": lambda chk, prog, files: stale_derived(chk, prog, files), "CACHE-KEY": lambda chk, prog, files: cache_key(chk, prog, files), "NO-PARAM-WRITE": lambda chk, prog, files: no_param_write(chk, prog, files), "ZERO-AS-MISSING": lambda chk, prog, files: zero_as_missing(chk, prog, files), "POSE-DIV": lambda chk, prog, files: pose_div(chk, prog, files), "UNIT-GUARD": lambda chk, prog, files: unit_guard(chk, prog, files), "PARAM-DEAD": param_dead, "SWAPPED-ARGS": swapped_args, "METHOD-TRUTH": method_truth, "VIEW-SWAP": view_swap,
        "MODULE-STATE": module_state, "SHADOW-REBIND": shadow_rebind, "CASE-MIXED": case_mixed, "INT-ALLOC": int_alloc}
 
 
@@ -725,6 +725,10 @@ def _lint_fixture_rows(Q):
     flips = _np.sign(_np.sum(Q[1:]*Q[:-1], axis=1))
     Q[1:] *= flips[:, None]
     return Q
+def _lint_fixture_blend(az, ay):
+    up = az >= 0
+    ka, kb = _np.sqrt(2.0*(1.0+az)), _np.sqrt(2.0*(1.0-az))
+    return up*0.5*ka + ~up*(-ay/kb)
 def _lint_fixture_process(x):
     old = _np.seterr(all='raise')
     y = 1.0 / x
@@ -736,7 +740,7 @@ def _lint_fixture_nan(x):
 '''
 FIXTURE_HOST = "ahrs/common/frames.py"
 # rule -> properties that own it (None = every property, on its anchor files)
-OWNERS = {"PROCESS-STATE": None, "SUBCLASS-ARITH": None, "NAN-LITERAL": {"C02", "C03", "C04", "C05", "C07", "C12", "C13"}, "LATCH": None, "SIGNATURE": None, "SIGN-CANON": None, "UNDEFINED-NAME": None, "SELF-PURE": {"C01", "C02", "C07", "C09", "C10", "C11", "C12", "C18", "C20"}, "STALE-DERIVED": None, "CACHE-KEY": None, "NO-PARAM-WRITE": {"C01", "C02", "C03", "C04", "C06", "C07", "C09", "C10", "C12", "C13", "C18", "C20"}, "ZERO-AS-MISSING": None, "POSE-DIV": {"C03", "C04", "C05", "C13", "C02", "C07"}, "UNIT-GUARD": None, "PARAM-DEAD": None, "SWAPPED-ARGS": None, "METHOD-TRUTH": None, "VIEW-SWAP": None, "INT-ALLOC": None, "CASE-MIXED": None,
+OWNERS = {"MASK-BLEND": None, "PROCESS-STATE": None, "SUBCLASS-ARITH": None, "NAN-LITERAL": {"C02", "C03", "C04", "C05", "C07", "C12", "C13"}, "LATCH": None, "SIGNATURE": None, "SIGN-CANON": None, "UNDEFINED-NAME": None, "SELF-PURE": {"C01", "C02", "C07", "C09", "C10", "C11", "C12", "C18", "C20"}, "STALE-DERIVED": None, "CACHE-KEY": None, "NO-PARAM-WRITE": {"C01", "C02", "C03", "C04", "C06", "C07", "C09", "C10", "C12", "C13", "C18", "C20"}, "ZERO-AS-MISSING": None, "POSE-DIV": {"C03", "C04", "C05", "C13", "C02", "C07"}, "UNIT-GUARD": None, "PARAM-DEAD": None, "SWAPPED-ARGS": None, "METHOD-TRUTH": None, "VIEW-SWAP": None, "INT-ALLOC": None, "CASE-MIXED": None,
           "SHADOW-REBIND": None,
           # process-wide hidden state only contradicts properties that promise repeatability / isolation / history independence
           "MODULE-STATE": {"C06", "C15", "C19"}}
@@ -1611,6 +1615,66 @@ def subclass_arith(chk, prog, files):
                                 % ast.unparse(o)[:40], line=b.lineno)
                     break
     chk.counts["SUBCLASS-ARITH.conversions"] = chk.counts.get("SUBCLASS-ARITH.conversions", 0) + n
+    return n
+
+
+# --------------------------------------------------------------------------------------------------------------- MASK-BLEND
+def mask_blend(chk, prog, files):
+    """`mask*A + ~mask*B` (two-way selection by arithmetic with a boolean array): the unselected branch is still evaluated and only multiplied by False.
+    If it divides by a computed quantity, the rows where that quantity vanishes give inf or nan there, and nan*False is nan, inf*False is nan: the blend
+    returns NaN exactly on the rows the mask was meant to protect (np.where has the same evaluation but at least discards the value).  Reported when a masked
+    term contains a division by something other than a literal."""
+    n = 0
+    for f in _funcs(prog, files):
+        masks = set()
+        for s in ast.walk(f.node):
+            if isinstance(s, ast.Assign) and len(s.targets) == 1 and isinstance(s.targets[0], ast.Name) and isinstance(s.value, ast.Compare):
+                masks.add(s.targets[0].id)
+
+        def mask_factor(e):
+            if isinstance(e, ast.Name) and e.id in masks:
+                return e.id
+            if isinstance(e, ast.UnaryOp) and isinstance(e.op, (ast.Invert, ast.Not)):
+                return mask_factor(e.operand)
+            if isinstance(e, ast.Call) and ast.unparse(e.func).split(".")[-1] == "logical_not" and e.args:
+                return mask_factor(e.args[0])
+            if isinstance(e, ast.BinOp) and isinstance(e.op, ast.Sub) and isinstance(e.left, ast.Constant) and e.left.value in (1, 1.0):
+                return mask_factor(e.right)
+            if isinstance(e, ast.Compare):
+                return ast.unparse(e)
+            return None
+
+        def factors(e):
+            if isinstance(e, ast.BinOp) and isinstance(e.op, ast.Mult):
+                return factors(e.left) + factors(e.right)
+            return [e]
+
+        def risky_div(e):
+            for x in ast.walk(e):
+                if isinstance(x, ast.BinOp) and isinstance(x.op, ast.Div) and not isinstance(x.right, ast.Constant):
+                    return x
+            return None
+        for b in ast.walk(f.node):
+            if not (isinstance(b, ast.BinOp) and isinstance(b.op, ast.Add)):
+                continue
+            terms = [b.left, b.right]
+            picked = []
+            for t in terms:
+                fs = factors(t)
+                mk = [mask_factor(x) for x in fs]
+                if any(mk):
+                    rest = [x for x, k in zip(fs, mk) if not k]
+                    picked.append((next(k for k in mk if k), rest))
+            if len(picked) == 2 and picked[0][0] == picked[1][0]:
+                n += 1
+                for mname, rest in picked:
+                    d = next((risky_div(x) for x in rest if risky_div(x) is not None), None)
+                    if d is not None:
+                        chk.finding("MASK-BLEND", f.module.rel, f.qname, "%s" % stmt_text(b)[:80],
+                                    "the two forms are combined as `mask*A + ~mask*B`; `%s` is evaluated on every row, also where `%s` rules its form out, and a zero divisor there gives "
+                                    "inf/nan, which multiplied by False is nan: the rows the mask was meant to protect come out as NaN" % (ast.unparse(d)[:40], mname), line=b.lineno)
+                        break
+    chk.counts["MASK-BLEND.blends"] = chk.counts.get("MASK-BLEND.blends", 0) + n
     return n
 
 
